@@ -66,11 +66,17 @@ UsesFbd(t, seen) ==
     [] OTHER -> FALSE
 \* known design gaps between the schema builder and the data model (each one a KNOWN FINDING whose
 \* negative check is SchemaAgrees with the gap removed from SchemaGaps)
+\* a regular field whose external name matches the pattern of a pattern-properties field of the class
+PatOverlap(cls) ==
+  LET fs == UClasses[cls].fields IN
+  \E i, j \in DOMAIN fs : /\ fs[i].props = "pat" /\ fs[j].props = "no" /\ ~fs[j].flat
+                          /\ \E n \in DOMAIN Ctx(O).S[Ext(Ctx(O), fs[j])].pats : Ctx(O).S[Ext(Ctx(O), fs[j])].pats[n] = fs[i].pat
 RECURSIVE UsesFeature(_, _, _)
 UsesFeature(t, feat, seen) ==
   CASE t.k = "obj" ->
          /\ t.cls \notin seen
-         /\ \/ \E i \in DOMAIN UClasses[t.cls].fields :
+         /\ \/ feat = "patoverlap" /\ PatOverlap(t.cls)
+            \/ \E i \in DOMAIN UClasses[t.cls].fields :
                   LET f == UClasses[t.cls].fields[i] IN
                   \/ feat = "flattened" /\ f.flat
                   \/ UsesFeature(f.type, feat, seen \cup {t.cls})
@@ -122,7 +128,7 @@ Run == /\ phase = "data"
                                  \* C06: is the case in the common domain, which known gaps does the type
                                  \* touch, does the modelled schema accept the datum
                                  sdom |-> (~O.coerce /\ ~O.fbd /\ ~UsesFbd(T, {}) /\ ~HasIntFloat(d)),
-                                 gaps |-> {g \in {"flattened", "mapkeys", "discriminated"} : UsesFeature(T, g, {})},
+                                 gaps |-> {g \in {"flattened", "mapkeys", "discriminated", "patoverlap"} : UsesFeature(T, g, {})},
                                  saccept |-> Validates(Ctx(O), "d", SchemaOf(Ctx(O), "d", T, <<>>, {}), d),
                                  \* ... and with uniqueItems enforced for set-typed positions too (what a validator does)
                                  saccept_u |-> LET c2 == Ctx([O EXCEPT !.setuniq = TRUE]) IN
